@@ -3,6 +3,7 @@
 set -e
 export GOFLAGS=-mod=mod GOPROXY=off GOSUMDB=off GOTOOLCHAIN=local
 cd /verif/sim
+rm -f /tmp/vs_ov/out.json
 rm -rf /tmp/vs_ov/cache /tmp/vs_ov/server /tmp/vs_ov/location /tmp/vs_ov/upstream /tmp/vs_ov/compress /tmp/vs_ov/store
 go1.26.8 run ./cmd/instr /tmp/vs_ov >/dev/null
 go1.26.8 test -c -tags verif $RACE -overlay /tmp/vs_ov/overlay.json -o /tmp/vs_ov/worker.test ./worker
